@@ -67,7 +67,7 @@ DEPENDS = {
 
 PROPERTIES = {
     'C01': {
-        'rules': ['RF6', 'RF5', 'SDO', 'TMR', 'CSDO', 'SDO2', 'RF7', 'PDOCFG'],
+        'rules': ['RF6', 'RF5', 'SDO', 'TMR', 'CSDO', 'SDO2', 'RF7', 'PDOCFG', 'EMCY'],
         'technique': 'interval abstract interpretation (widening/narrowing, guard refinement, parameter and field '
                      'invariants) for every constant-extent subscript; non-null dataflow with bounded disjunction for every '
                      'dereference of a nullable location; guard-before-use for SDO continuation handlers',
